@@ -96,6 +96,7 @@ var jsStrReplacementTable = []string{
 	// Encode HTML specials as hex so the output can be embedded
 	// in HTML attributes without further encoding.
 	'"':  `\u0022`,
+	'$':  `\u0024`, // Prevents `${` from opening an interpolation inside template literals.
 	'`':  `\u0060`,
 	'&':  `\u0026`,
 	'\'': `\u0027`,
